@@ -2,6 +2,7 @@ import Qhttp.Lemmas.ProxyTarget
 import Qhttp.Lemmas.HttpRender
 import Qhttp.Lemmas.C01Parser
 import Qhttp.Lemmas.C03Hdr
+import Qhttp.Lemmas.HttpRenderW
 /-
   C12 — the upstream request head written by `onUpstreamConnected`: its decomposition into start
   line and forwarded header map, what the forwarded map carries under every name, and that the
@@ -216,40 +217,248 @@ theorem mem_of_mem_trim {x : UInt8} {l : Bytes} (h : x ∈ trim l) : x ∈ l := 
   have h3 := List.mem_reverse.mp h2
   exact (List.dropWhile_sublist isSp).subset h3
 
-/-- a client header line the strict reader can be shown again: no CR anywhere (the line breaks are
-    already gone) and a name that is not blank -/
-def LineOk (l : Bytes) : Prop :=
-  CR ∉ l ∧ ∀ n x, breakOn [COLON] l = some (n, x) → trim n ≠ []
+/-- the part of `Http.EntryOk` that `Parser::parseHeaderList` guarantees by itself (since it
+    refuses blank names): the name is not empty and has no ':' -/
+def NameOk (e : Bytes × Bytes) : Prop := e.1 ≠ [] ∧ COLON ∉ e.1
 
-open Qhttp.Http in
-theorem wf_insertLine {m : HeaderMap} {l : Bytes} (hm : C03L.HdrWf m) (hl : LineOk l) :
-    C03L.HdrWf (Parser.insertLine m l) := by
+/-- the part of `Http.EntryOk` the parser does not guarantee (a lone CR is an ordinary byte for
+    it; lines end at CR LF only): no CR in name or value -/
+def CrFree (e : Bytes × Bytes) : Prop := CR ∉ e.1 ∧ CR ∉ e.2
+
+theorem entryOk_iff (e : Bytes × Bytes) : Http.EntryOk e ↔ NameOk e ∧ CrFree e := by
+  unfold Http.EntryOk NameOk CrFree
+  constructor
+  · rintro ⟨a, b, c, d⟩; exact ⟨⟨a, b⟩, c, d⟩
+  · rintro ⟨⟨a, b⟩, c, d⟩; exact ⟨a, b, c, d⟩
+
+theorem hdrWf_iff (m : HeaderMap) : C03L.HdrWf m ↔ (∀ e ∈ m, NameOk e) ∧ (∀ e ∈ m, CrFree e) := by
+  unfold C03L.HdrWf
+  constructor
+  · intro h
+    exact ⟨fun e he => ((entryOk_iff e).1 (h e he)).1, fun e he => ((entryOk_iff e).1 (h e he)).2⟩
+  · rintro ⟨a, b⟩ e he
+    exact (entryOk_iff e).2 ⟨a e he, b e he⟩
+
+/-- the entry a line of the form `name: value` contributes has a good name -/
+theorem nameOk_insertLine {m : HeaderMap} {l : Bytes} (hm : ∀ e ∈ m, NameOk e)
+    (hl : Parser.hdrLineB l = true) : ∀ e ∈ Parser.insertLine m l, NameOk e := by
+  unfold Parser.insertLine
+  unfold Parser.hdrLineB at hl
+  cases hb : breakOn [COLON] l with
+  | none => exact hm
+  | some p =>
+    obtain ⟨n, x⟩ := p
+    rw [hb] at hl
+    simp only [Bool.not_eq_true'] at hl
+    intro e he
+    rcases C03L.mem_insert.mp he with rfl | he
+    · refine ⟨fun c => ?_, fun h => breakOn_singleton_not_mem hb (mem_of_mem_trim h)⟩
+      simp only at c
+      rw [c] at hl
+      cases hl
+    · exact hm e he
+
+/-- CR-free lines give CR-free entries -/
+theorem crFree_insertLine {m : HeaderMap} {l : Bytes} (hm : ∀ e ∈ m, CrFree e) (hl : CR ∉ l) :
+    ∀ e ∈ Parser.insertLine m l, CrFree e := by
   unfold Parser.insertLine
   cases hb : breakOn [COLON] l with
   | none => exact hm
   | some p =>
     obtain ⟨n, x⟩ := p
-    have hnc : COLON ∉ n := breakOn_singleton_not_mem hb
     have hsplit := breakOn_some hb
-    refine C03L.wf_insert hm ⟨hl.2 n x hb, fun h => hnc (mem_of_mem_trim h), ?_, ?_⟩
-    · intro h; apply hl.1; rw [hsplit]; simp [mem_of_mem_trim h]
-    · intro h; apply hl.1; rw [hsplit]; simp [mem_of_mem_trim h]
+    intro e he
+    rcases C03L.mem_insert.mp he with rfl | he
+    · constructor
+      · intro h; apply hl; rw [hsplit]; simp [mem_of_mem_trim h]
+      · intro h; apply hl; rw [hsplit]; simp [mem_of_mem_trim h]
+    · exact hm e he
 
-theorem wf_foldl_insertLine (hs : List Bytes) (hl : ∀ l ∈ hs, LineOk l) :
-    ∀ {m : HeaderMap}, C03L.HdrWf m → C03L.HdrWf (hs.foldl Parser.insertLine m) := by
+theorem nameOk_foldl_insertLine (hs : List Bytes) (hl : ∀ l ∈ hs, Parser.hdrLineB l = true) :
+    ∀ {m : HeaderMap}, (∀ e ∈ m, NameOk e) → ∀ e ∈ hs.foldl Parser.insertLine m, NameOk e := by
   induction hs with
   | nil => intro m h; exact h
   | cons l rest ih =>
     intro m h
-    exact ih (fun l' h' => hl l' (by simp [h'])) (wf_insertLine h (hl l (by simp)))
+    exact ih (fun l' h' => hl l' (by simp [h'])) (nameOk_insertLine h (hl l (by simp)))
 
-/-- header maps produced by `Parser::parseHeaderList` from CR-free lines with non-blank names
-    satisfy the cleanliness condition of `head_wellformed` -/
-theorem wf_of_parseHeaderList {hs : List Bytes} {m : HeaderMap}
-    (h : Parser.parseHeaderList hs [] = some m) (hl : ∀ l ∈ hs, LineOk l) : C03L.HdrWf m := by
+theorem crFree_foldl_insertLine (hs : List Bytes) (hl : ∀ l ∈ hs, CR ∉ l) :
+    ∀ {m : HeaderMap}, (∀ e ∈ m, CrFree e) → ∀ e ∈ hs.foldl Parser.insertLine m, CrFree e := by
+  induction hs with
+  | nil => intro m h; exact h
+  | cons l rest ih =>
+    intro m h
+    exact ih (fun l' h' => hl l' (by simp [h'])) (crFree_insertLine h (hl l (by simp)))
+
+/-- **every header map `Parser::parseHeaderList` produces has good names** — non-empty, no ':' —
+    whatever the lines are (no side condition: a line with a blank name is refused by the parser) -/
+theorem nameOk_of_parseHeaderList {hs : List Bytes} {m0 m : HeaderMap}
+    (h : Parser.parseHeaderList hs m0 = some m) (h0 : ∀ e ∈ m0, NameOk e) : ∀ e ∈ m, NameOk e := by
   rw [Parser.parseHeaderList_eq] at h
   split at h
-  · cases h; exact wf_foldl_insertLine hs hl (fun e he => by cases he)
+  · rename_i hl
+    cases h; exact nameOk_foldl_insertLine hs hl h0
   · cases h
+
+/-- header maps produced by `Parser::parseHeaderList` from CR-free lines satisfy the cleanliness
+    condition of `head_wellformed`.  (The former side condition "the name part is not blank" is
+    gone: the parser refuses such lines.  CR-freeness stays explicit: a lone CR inside a line is an
+    ordinary byte for the parser.) -/
+theorem wf_of_parseHeaderList {hs : List Bytes} {m : HeaderMap}
+    (h : Parser.parseHeaderList hs [] = some m) (hl : ∀ l ∈ hs, CR ∉ l) : C03L.HdrWf m := by
+  rw [hdrWf_iff]
+  refine ⟨nameOk_of_parseHeaderList h (fun e he => by cases he), ?_⟩
+  rw [Parser.parseHeaderList_eq] at h
+  split at h
+  · cases h; exact crFree_foldl_insertLine hs hl (fun e he => by cases he)
+  · cases h
+
+/-- the same from the CR-freeness of the resulting entries alone -/
+theorem wf_of_parseHeaderList' {hs : List Bytes} {m : HeaderMap}
+    (h : Parser.parseHeaderList hs [] = some m) (hcr : ∀ e ∈ m, CrFree e) : C03L.HdrWf m :=
+  (hdrWf_iff m).2 ⟨nameOk_of_parseHeaderList h (fun e he => by cases he), hcr⟩
+
+/-- … and from an accepted request head -/
+theorem nameOk_of_parseRequestHeaders {head : Bytes} {rh : Parser.ReqHead}
+    (h : Parser.parseRequestHeaders head [] = some rh) : ∀ e ∈ rh.headers, NameOk e := by
+  obtain ⟨p0, p2, hp, _, _⟩ := (Parser.parseRequestHeaders_eq_some_iff head [] rh).mp h
+  obtain ⟨hs, _, _, _, _, hpl, _⟩ := (Parser.parseHeaders_eq_some_iff _ _ _ _ _ _).1 hp
+  exact nameOk_of_parseHeaderList hpl (fun e he => by cases he)
+
+theorem wf_of_parseRequestHeaders {head : Bytes} {rh : Parser.ReqHead}
+    (h : Parser.parseRequestHeaders head [] = some rh) (hcr : ∀ e ∈ rh.headers, CrFree e) :
+    C03L.HdrWf rh.headers :=
+  (hdrWf_iff _).2 ⟨nameOk_of_parseRequestHeaders h, hcr⟩
+
+end Qhttp.ProxyL
+
+namespace Qhttp.ProxyL
+open Qhttp Proxy Qhttp.HB Qhttp.Http
+
+/-! ### the general form: pieces free of CR LF (no CR-freeness needed) -/
+
+/-- every entry is fit for `Http.parse_render_w`: non-empty name without ':', no CR LF in name
+    or value -/
+def HdrW (m : HeaderMap) : Prop := ∀ e ∈ m, EntryOkW e
+
+theorem hdrW_of_hdrWf {m : HeaderMap} (h : C03L.HdrWf m) : HdrW m :=
+  fun e he => entryOkW_of_entryOk (h e he)
+
+theorem hdrW_insert {k v : Bytes} {m : HeaderMap} (h : HdrW m) (he : EntryOkW (k, v)) :
+    HdrW (HeaderMap.insert k v m) := by
+  intro e hm
+  rcases C03L.mem_insert.mp hm with hm | hm
+  · subst hm; exact he
+  · exact h e hm
+
+theorem hdrW_remove {k : Bytes} {m : HeaderMap} (h : HdrW m) : HdrW (HeaderMap.remove k m) :=
+  fun e hm => h e (List.mem_filter.mp hm).1
+
+theorem trim_infix (xs : Bytes) : trim xs <:+: xs := by
+  unfold trim trimR trimL
+  have h1 : xs.dropWhile isSp <:+ xs := List.dropWhile_suffix isSp
+  have h2 : ((xs.dropWhile isSp).reverse.dropWhile isSp).reverse <+: xs.dropWhile isSp := by
+    have := List.dropWhile_suffix isSp (l := (xs.dropWhile isSp).reverse)
+    have := List.reverse_prefix.mpr this
+    simpa using this
+  exact h2.isInfix.trans h1.isInfix
+
+theorem noCRLF_of_infix {a l : Bytes} (h : ¬ CRLF <:+: l) (ha : a <:+: l) : ¬ CRLF <:+: a :=
+  fun c => h (c.trans ha)
+
+theorem noCRLF_of_CR {l : Bytes} (h : CR ∉ l) : ¬ CRLF <:+: l :=
+  fun c => h (CR_mem_of_CRLF_infix c)
+
+theorem noCRLF_sp_cons {l : Bytes} (h : ¬ CRLF <:+: l) : ¬ CRLF <:+: SP :: l := by
+  have := not_infix_append_sep (a := []) (c := SP)
+    (fun c => by have := c.length_le; simp [CRLF] at this) h (by decide)
+  simpa using this
+
+theorem flatMap_commaSp_noCRLF (vs : List Bytes) (t : Bytes) (hv : ∀ v ∈ vs, ¬ CRLF <:+: v)
+    (ht : ¬ CRLF <:+: t) : ¬ CRLF <:+: (vs.flatMap fun v => v ++ [44, 32]) ++ t := by
+  induction vs with
+  | nil => simpa using ht
+  | cons v vs ih =>
+    have ih := ih (fun v h => hv v (by simp [h]))
+    have := not_infix_append_sep (c := 44) (hv v (by simp)) (noCRLF_sp_cons ih) (by decide)
+    simpa [List.flatMap_cons, List.append_assoc, SP] using this
+
+theorem xffValue_noCRLF (c : Cfg) (h : HeaderMap) (hh : HdrW h) (hp : CR ∉ c.peerIP) :
+    ¬ CRLF <:+: xffValue c h := by
+  unfold xffValue
+  apply flatMap_commaSp_noCRLF _ _ _ (noCRLF_of_CR hp)
+  intro v hv
+  obtain ⟨k', he⟩ := C03L.mem_of_mem_values (List.mem_reverse.mp hv)
+  exact (hh (k', v) he).2.2.2
+
+theorem hdrW_fwdHeaders (c : Cfg) (h : HeaderMap) (hh : HdrW h) (hp : CR ∉ c.peerIP) :
+    HdrW (fwdHeaders c h) := by
+  have okXFF : ∀ v, ¬ CRLF <:+: v → EntryOkW (XFF, v) := fun v hv =>
+    ⟨(by decide : XFF ≠ []), (by decide : COLON ∉ XFF), noCRLF_of_CR (by decide : CR ∉ XFF), hv⟩
+  have okXRI : ∀ v, ¬ CRLF <:+: v → EntryOkW (XRI, v) := fun v hv =>
+    ⟨(by decide : XRI ≠ []), (by decide : COLON ∉ XRI), noCRLF_of_CR (by decide : CR ∉ XRI), hv⟩
+  have h1 : HdrW (fwd1 c h) := by
+    unfold fwd1
+    split
+    · exact hdrW_insert hh (okXFF _ (noCRLF_of_CR hp))
+    · exact hdrW_insert (hdrW_remove hh) (okXFF _ (xffValue_noCRLF c h hh hp))
+  unfold fwdHeaders
+  split
+  · exact h1
+  · exact hdrW_insert h1 (okXRI _ (noCRLF_of_CR hp))
+
+theorem startLine_ne_nil (c : Cfg) (s : Sock) : startLine c s ≠ [] := by
+  simp [startLine, HTTP11sp, lit]
+
+/-- **the head is one well-formed HTTP/1.1 request head**, general form: the client's header
+    entries need only be free of CR LF (a lone CR is an ordinary byte) -/
+theorem head_wellformed_w (c : Cfg) (s : Sock) (body : Bytes)
+    (hm : s.method ∈ eightCodes) (hh : HdrW s.reqHeaders) (hp : CR ∉ c.peerIP) :
+    Http.parse (upstreamHead c s ++ body) =
+      some { start := startLine c s, headers := fwdHeaders c s.reqHeaders, body := body } := by
+  rw [upstreamHead_eq]
+  exact Http.parse_render_w _ _ _ (startLine_ne_nil c s) (noCRLF_of_CR (startLine_CR c s hm))
+    (hdrW_fwdHeaders c _ hh hp)
+
+/-! ### every header map the parser produces is `HdrW` -/
+
+theorem hdrW_insertLine {m : HeaderMap} {l : Bytes} (hm : HdrW m)
+    (hl : Parser.hdrLineB l = true) (hc : ¬ CRLF <:+: l) : HdrW (Parser.insertLine m l) := by
+  have hname := nameOk_insertLine (m := []) (l := l) (fun e he => by cases he) hl
+  unfold Parser.insertLine at hname ⊢
+  cases hb : breakOn [COLON] l with
+  | none => exact hm
+  | some p =>
+    obtain ⟨n, x⟩ := p
+    rw [hb] at hname
+    have hsplit := breakOn_some hb
+    have hn : n <:+: l := ⟨[], [COLON] ++ x, by rw [hsplit]; simp⟩
+    have hx : x <:+: l := ⟨n ++ [COLON], [], by rw [hsplit]; simp⟩
+    have h0 := hname (trim n, trim x) (by simp [HeaderMap.insert])
+    exact hdrW_insert hm ⟨h0.1, h0.2, noCRLF_of_infix hc ((trim_infix n).trans hn),
+      noCRLF_of_infix hc ((trim_infix x).trans hx)⟩
+
+theorem hdrW_of_parseHeaderList {hs : List Bytes} {m0 m : HeaderMap}
+    (h : Parser.parseHeaderList hs m0 = some m) (h0 : HdrW m0) (hl : ∀ l ∈ hs, ¬ CRLF <:+: l) :
+    HdrW m := by
+  rw [Parser.parseHeaderList_eq] at h
+  split at h
+  · rename_i hb
+    cases h
+    induction hs generalizing m0 with
+    | nil => exact h0
+    | cons l rest ih =>
+      exact ih (hdrW_insertLine h0 (hb l (by simp)) (hl l (by simp)))
+        (fun l' h' => hl l' (by simp [h'])) (fun l' h' => hb l' (by simp [h']))
+  · cases h
+
+/-- **every request head the library accepts has a header map fit for re-reading** — no side
+    condition at all: names are non-empty and free of ':' because blank names are refused, names
+    and values are free of CR LF because header lines are cut at CR LF -/
+theorem hdrW_of_parseRequestHeaders {head : Bytes} {rh : Parser.ReqHead}
+    (h : Parser.parseRequestHeaders head [] = some rh) : HdrW rh.headers := by
+  obtain ⟨p0, p2, hp, _, _⟩ := (Parser.parseRequestHeaders_eq_some_iff head [] rh).mp h
+  obtain ⟨hs, _, _, _, hl, hpl, _⟩ := (Parser.parseHeaders_eq_some_iff _ _ _ _ _ _).1 hp
+  exact hdrW_of_parseHeaderList hpl (fun e he => by cases he) hl
 
 end Qhttp.ProxyL
